@@ -80,8 +80,16 @@ func replay(path string) {
 		}
 		calls := append(append([]interp.CallSpec{}, w.History...), w.Call)
 		div, prob := bt.Diagnose(cfg, 0, calls)
+		ba, isBad := cdrive.BadArgOfCall(pi, w.Call)
 		if div == nil {
+			if isBad && strings.HasPrefix(w.Item, "process death") && strings.HasPrefix(prob, "C driver in trace mode") {
+				return fmt.Sprintf("argcheck|%s|%s", ba.Type, ba.Bound), fmt.Sprintf("  history %v then %s (%s): the compiled C dies in the call the argument check must refuse\n  %s\n", w.History, w.Call.String(), cfg.Name, strings.ReplaceAll(prob, "\n", "\n  "))
+			}
 			return "", "no divergence (" + prob + ")"
+		}
+		if isBad && div.Call == len(calls)-1 {
+			text := fmt.Sprintf("  history %v then %s (%s)\n  out-of-domain argument (%s, %s bound): first diverging item after call %d: %s\n    generated C : %s\n    Wuffs source: %s\n", w.History, w.Call.String(), cfg.Name, ba.Type, ba.Bound, div.Call, div.Label, div.C, div.Interp)
+			return fmt.Sprintf("argcheck|%s|%s", ba.Type, ba.Bound), text
 		}
 		text := fmt.Sprintf("  history %v then %s (%s)\n  first diverging item after call %d: %s\n    generated C : %s\n    Wuffs source: %s\n", w.History, w.Call.String(), cfg.Name, div.Call, div.Label, div.C, div.Interp)
 		return signature(pi, div.Label), text
